@@ -1312,10 +1312,12 @@ def _solve_balancing_ilp_pulp(A):
     ]
     prob = pulp.LpProblem("chempy_balancing_problem", pulp.LpMinimize)
     prob += reduce(add, x)
-    for expr in [
-        pulp.lpSum([x[i] * e for i, e in enumerate(row)]) for row in A.tolist()
-    ]:
-        prob += expr == 0
+    for row in A.tolist():
+        try:  # integer coefficients: e.g. 7/3 as a float makes the equalities inconsistent
+            mult = reduce(lambda a, b: a * b // math.gcd(a, b), [int(e.q) for e in row], 1)
+        except AttributeError:
+            mult = 1
+        prob += pulp.lpSum([x[i] * (e * mult) for i, e in enumerate(row)]) == 0
     prob.solve(pulp.PULP_CBC_CMD(msg=False))
     return [pulp.value(_) for _ in x]
 
